@@ -246,14 +246,19 @@ def durable_write_fns(facts):
             continue
         wsw, wok = ok_edge_of_result(b, wa[0])
         fsw, fok = ok_edge_of_result(b, fl[0])
-        if wok is None or fok is None or not must_pass_edge(b, fl[0], (wsw, wok)):
+        if wok is None or not must_pass_edge(b, fl[0], (wsw, wok)):
             continue
         good = True
         for rb, si, e in assigns_to_return(b):
             is_err = (e.k == "agg" and e.variant == "Err") or (e.k == "call" and (e.q or "").endswith("from_residual"))
             if is_err:
                 continue
-            if not (must_pass_edge(b, rb, (fsw, fok)) and must_pass_edge(b, rb, (wsw, wok))):
+            if fok is None:
+                # `w.write_all(b)?; w.flush()`: the flush result itself is what the helper returns - its Ok IS the flush's Ok
+                r = peel(e)
+                if not (any(x.k == "call" and x.bb == fl[0] for x in walk(r)) and must_pass_edge(b, rb, (wsw, wok))):
+                    good = False
+            elif not (must_pass_edge(b, rb, (fsw, fok)) and must_pass_edge(b, rb, (wsw, wok))):
                 good = False
         if good:
             out.add(b.q)
